@@ -428,6 +428,12 @@ class Specs:
             if not (d.kind == 'ref' and d.ty.cls == 'dict'):
                 raise Unsupported('dmap() of a non-dict')
             return MapV(d.ty.key, d.ty.val, st.heap.ddom(d.t), st.heap.darrs(d.t, d.ty.val))
+        if name == 'iterated':
+            box = st.loc.get('$iter')
+            if box is None or box.itv[0] not in ('list', 'rlist'):
+                raise Unsupported('iterated(): no list is being iterated here')
+            l = box.itv[1]
+            return SeqV(l.ty.elem, st.heap.llen(l.t), st.heap.larrs(l.t, l.ty.elem))
         if name == 'keys':
             d = ex.ev1(a[0], st, fr)
             if not (d.kind == 'ref' and d.ty.cls == 'dict'):
@@ -512,7 +518,7 @@ class Specs:
             return V(execu.T_DYN, t)
         if name in ('comp_pos', 'comp_inv', 'sorted_perm', 'sorted_inv'):
             # ghost witness arrays left by a filtering comprehension / sorted(): position maps
-            key = f'$w.{name}.{a[0].value}'
+            key = f'$w.{name}.{a[0].value}' if a[0].value else f'$w.{name}'
             arr = st.heap.maps.get(key)
             if arr is None:
                 # no such comprehension ran on this path: an arbitrary map (the clause must hold for any)
